@@ -916,7 +916,8 @@ func (c *pmCtx) callsIn(row *ParamRow, blk *ast.BlockStmt, vals types.Object) {
 			// v.ParseX(arg): v depends on arg
 			if sel, ok := s.Fun.(*ast.SelectorExpr); ok {
 				if o := identObj(info, sel.X); o != nil && len(s.Args) > 0 {
-					if _, isVar := o.(*types.Var); isVar && strings.HasPrefix(sel.Sel.Name, "Parse") {
+					// (also vOpt.Set(v) on a local Maybe/Nullable wrapper)
+					if _, isVar := o.(*types.Var); isVar && (strings.HasPrefix(sel.Sel.Name, "Parse") || sel.Sel.Name == "Set") {
 						defs[o] = append(defs[o], s.Args...)
 					}
 				}
